@@ -195,6 +195,9 @@ pub fn work(prop: &str, thorough: bool, verif_seed: u64, job: u64, jobs: u64, to
         for (k, v) in &an.crash.probes {
             *w.probes.entry(k.clone()).or_default() += v;
         }
+        for (k, v) in &an.extra {
+            *w.probes.entry(k.clone()).or_default() += v;
+        }
         w.faults_planned += spec.faults.len() as u64;
         for (fi, _pos) in &out.ep.fired {
             let f = &spec.faults[*fi];
@@ -523,6 +526,7 @@ pub fn check(prop: &str, thorough: bool, verif_seed: u64, jobs: u64) -> i32 {
     let mut harness_err = false;
     for (mut c, outfile) in kids {
         let st = c.wait().expect("wait worker");
+        let _ = std::fs::remove_dir_all(format!("/dev/shm/rlsim-{}", c.id()));
         if !st.success() {
             eprintln!("HARNESS-ERROR: worker exited with {st}");
             harness_err = true;
@@ -650,4 +654,23 @@ pub fn check(prop: &str, thorough: bool, verif_seed: u64, jobs: u64) -> i32 {
     }
     let _ = Call::Write;
     exit
+}
+
+/// Debug aid: print the trace of a replay file's run.
+pub fn trace_cmd(path: &str) -> i32 {
+    let s = std::fs::read_to_string(path).expect("read");
+    let rf: ReplayFile = serde_json::from_str(&s).expect("parse");
+    let root = format!("{}/r", scratch_root());
+    let out = props::execute(&rf.property, &rf.witness.spec, &root);
+    println!("cfg {:?} faults {:?} batch {}", rf.witness.spec.cfg, rf.witness.spec.faults, rf.witness.spec.flush_batch);
+    for (i, e) in out.ep.trace.iter().enumerate() {
+        match e {
+            crate::core::Ev::Fs(f) => println!("{i:4} {} {:?} {} off={} len={} res={} {}", out.ep.thread_names.get(f.tid as usize).cloned().unwrap_or_default(), f.op, f.file, f.off, f.len, f.res, f.fault.map(|x| format!("FAULT {x:?}")).unwrap_or_default()),
+            crate::core::Ev::H(h) => println!("{i:4}      {h:?}"),
+        }
+    }
+    println!("violations: {:?}", out.violations);
+    println!("aborted: {:?}; records {}; flushes {:?}", out.aborted, out.records.len(), out.flushes.iter().map(|f| (f.fid, f.nrec, f.upto)).collect::<Vec<_>>());
+    let _ = std::fs::remove_dir_all(scratch_root());
+    0
 }
